@@ -7,3 +7,8 @@ import XProofs.Properties.C16
 #print axioms Properties.C16.C16_rescale_inverse
 #print axioms Properties.C16.C16_view_chain_factor
 #print axioms Properties.C16.C16_affine_fd_exact
+#print axioms Properties.C16.C16_first_step_lands
+#print axioms Properties.C16.C16_first_step_lands_of_normal_residual
+#print axioms Properties.C16.C16_first_step_lands_of_minimiser
+#print axioms Properties.C16.C16_first_step_lands_lstsq
+#print axioms Properties.C16.C16_first_step_lands_weighted
